@@ -114,7 +114,10 @@ def specFlush (rb : RB) (old : GridTerm) (lines cols : Nat) (impl : String) : St
   match impl.splitOn " rb=" with
   | [head, dump] =>
     let ts := toks head
-    if field ts "r" != some "ok" then "flush did not complete"
+    -- the hypothesis of `flush_spec` minus the CHAR-width clause is C03's invariant: it must hold of every buffer a
+    -- drawing program produces (tested here on every flush; proved in C03)
+    if !flushWFPb (fun _ => true) rb then "the buffer is not well-formed (FlushWFP fails): C03 invariant broken?"
+    else if field ts "r" != some "ok" then "flush did not complete"
     else match (field ts "grid").bind parseGrid with
       | none => "unparsable grid"
       | some g =>
